@@ -6,6 +6,7 @@ import (
 	"go/constant"
 	"go/token"
 	"go/types"
+	"sort"
 	"strings"
 
 	"golang.org/x/tools/go/packages"
@@ -195,6 +196,11 @@ func checkC01(w *World, r *Report) {
 	r.Rule("R01.5", "conversion API language: no Go API whose accepted/produced language strictly contains the XPath production sits on a conversion path (ParseFloat for string→number, %v/%g/'e' for number→string, byte length/indices for character-indexed functions)", 5)
 	r.guard("R01.5", func() { c01ApiLanguage(w, r) })
 
+	r.Rule("R01.9", "a string becomes a number through the floating-point reader alone: numberFromString (and what it calls in the module) uses no integer parser — an int64 has no negative zero and ends at 2^63, so an integer short cut changes number('-0') and long digit strings", 1)
+	r.guard("R01.9", func() {
+		noIntegerParser(w, r, "R01.9", w.SSAFunc(w.Func("xpath", "numberFromString")), "the value of a numeric string", "-0 loses its sign (1 div number('-0') becomes +Infinity) and integers of 19 or more digits are read differently from the same number written with a decimal point")
+	})
+
 	r.Rule("R01.7", "no implementation-dependent float→integer conversion on a value path: every conversion of a float64 to an integer type in package xpath is bounded on both sides by comparisons that hold on the path, or is a reviewed site", 1)
 	r.guard("R01.7", func() { c01FloatToInt(w, r) })
 
@@ -267,6 +273,24 @@ func c01Wiring(w *World, r *Report) {
 			}
 		}
 	}
+}
+
+// noIntegerParser: f and the module functions it reaches call none of
+// strconv.ParseInt / ParseUint / Atoi (nor big.Int parsing): the text is read
+// as a float only.
+func noIntegerParser(w *World, r *Report, rule string, f *ssa.Function, what, consequence string) {
+	if f == nil {
+		panic(undecided{rule + ": function not found"})
+	}
+	var bad []string
+	for g := range calleesDeep(f, 3) {
+		switch g.String() {
+		case "strconv.ParseInt", "strconv.ParseUint", "strconv.Atoi", "(*math/big.Int).SetString", "(*math/big.Float).SetString":
+			bad = append(bad, g.String())
+		}
+	}
+	sort.Strings(bad)
+	r.Check(len(bad) == 0, rule, funcKey(f)+" reads numbers as floats only", f.Pos(), "no integer parser on the path", what+" is taken from "+strings.Join(bad, ", ")+" on some path: "+consequence)
 }
 
 // c01Arith inspects the SSA of an arithmetic instruction.
